@@ -343,7 +343,7 @@ def _obj_name(call):
     return ''
 
 
-def _classify_use(p, f, n):
+def _classify_use(p, f, n, _depth=0):
     """how the value read at n is consumed"""
     cur = n
     while True:
@@ -373,40 +373,68 @@ def _classify_use(p, f, n):
                 args = kids(par)[1:]
                 if len(args) == 3 and args[2] is cur:
                     return 'harmless', 'find-operand'
+            h = p.funcs.get(par.get('callee', {}).get('fid'))
+            if h is not None and h.body is not None and p.is_new_function(h) and k == 'CallExpr' and _depth < 3:
+                # a helper the reference tree did not have: what does it do with this argument?
+                args = kids(par)[1:]
+                pos = next((i for i, a in enumerate(args) if a is cur), None)
+                if pos is not None and pos < len(h.params):
+                    pid = h.params[pos]['id']
+                    inner = [x for x in h.all_nodes() if x.get('ref', {}).get('k') == 'Parm' and x['ref'].get('id') == pid]
+                    verdicts = [_classify_use(p, h, x, _depth + 1)[0] for x in inner]
+                    if inner and all(v == 'harmless' for v in verdicts):
+                        return 'harmless', 'helper-compare'
             return 'sensitive', 'arg:' + short(nm)
         if k == 'ReturnStmt':
             return 'sensitive', 'return'
         return 'sensitive', k
 
 
+def _membership_tests(f, cond):
+    """[(found_when_true, first, last, element, other side, operand nodes in f)] for a condition that is — directly or through a
+    helper the reference tree did not have — `std::find(first, last, element) ==/!= <other>`"""
+    from rules.norm import Norm
+    nm = Norm(f, inline=False)
+    m = nm.resolve(cond)
+    ex = nm.expand(m)
+    sub, e = ex if ex is not None else (nm, m)
+    e = sub.resolve(e)
+    out = []
+    if e is None or e['k'] not in ('BinaryOperator', 'CXXOperatorCallExpr') or e.get('op') not in ('!=', '=='):
+        return out
+    ks = kids(e) if e['k'] == 'BinaryOperator' else kids(e)[1:]
+    a, b = [sub.resolve(x) for x in ks]
+    for x, y in ((a, b), (b, a)):
+        if x.get('callee', {}).get('n') == 'std::find':
+            args = kids(x)[1:]
+            if len(args) != 3:
+                continue
+            ops = kids(m)[1:] if ex is not None else list(args)
+            out.append((e['op'] == '!=', sub.s(args[0]), sub.s(args[1]), sub.s(args[2]), sub.s(y), ops, x if ex is None else m))
+    return out
+
+
 def _guarded_by_membership(p, f, use, src):
-    key = expr_key(src)
+    from rules.norm import Norm
+    key = Norm(f, inline=False).s(src)
     for cond, truth in guard_facts(f, use):
-        c = strip_casts(cond)
-        if c['k'] != 'BinaryOperator' or c.get('op') not in ('!=', '=='):
-            continue
-        a, b = [strip_casts(x) for x in kids(c)]
-        for x, y in ((a, b), (b, a)):
-            if x.get('callee', {}).get('n') == 'std::find':
-                args = kids(x)[1:]
-                if len(args) != 3:
-                    continue
-                found = truth if c['op'] == '!=' else not truth
-                if not found:
-                    continue
-                if expr_key(args[2]) != key or expr_key(args[1]) != expr_key(y):
-                    continue
-                # the operands must not be redefined between the test and the use
-                stable = True
-                for vid in base_locals(args[2]) | base_locals(args[0]) | base_locals(args[1]):
-                    for w in local_writes(f, vid):
-                        # unstable only if the write can happen after the test and before the use
-                        cg = f.cfg
-                        if cg.path_avoiding(cg.position(x), set(), {w['i']}) is not None and \
-                                cg.path_avoiding(cg.position(w), set(), {use['i']}) is not None:
-                            stable = False
-                if stable:
-                    return True
+        for found_when_true, first, last, elem, other, ops, anchor in _membership_tests(f, cond):
+            found = truth if found_when_true else not truth
+            if not found or elem != key or last != other:
+                continue
+            # the operands must not be redefined between the test and the use
+            stable = True
+            vids = set()
+            for o in ops:
+                vids |= base_locals(o)
+            for vid in vids:
+                for w in local_writes(f, vid):
+                    cg = f.cfg
+                    if cg.path_avoiding(cg.position(anchor), set(), {w['i']}) is not None and \
+                            cg.path_avoiding(cg.position(w), set(), {use['i']}) is not None:
+                        stable = False
+            if stable:
+                return True
     return False
 
 
